@@ -226,6 +226,18 @@ func (c *Ctx) checkGuarded(rule string, fns []*ssa.Function, gs guardSpec, exemp
 			}
 			ls := li.at(r)
 			if !ls.holds(base, gs.lockSuffix) {
+				// an unexported helper inherits the locks held at every one of its
+				// static call sites (a "...Locked" helper extracted from a critical
+				// section)
+				releases := false
+				allInstrs(f, func(in ssa.Instruction) {
+					if p, d := lockOp(in); d < 0 && strings.HasSuffix(p, gs.lockSuffix) {
+						releases = true
+					}
+				})
+				if up, ok := c.entryLocks(f, 0); ok && !releases && up.holds(base, gs.lockSuffix) {
+					continue
+				}
 				bad = "accessed with lockset " + ls.String() + ", requires " + base + gs.lockSuffix
 				at = r
 				break
